@@ -215,6 +215,13 @@ class Algebra:
     def __len__(self):
         return 2 ** self.d
 
+    def __eq__(self, other):
+        if other.__class__ is not self.__class__:
+            return NotImplemented
+        # p, q, r do not determine the metric: the order of the signature matters as well.
+        return (all(getattr(self, f.name) == getattr(other, f.name) for f in fields(self) if f.compare)
+                and np.array_equal(self.signature, other.signature))
+
     @cached_property
     def indices_for_grade(self):
         """
